@@ -25,8 +25,8 @@ func init() {
 
 func Main(prop, tier string) int {
 	r := vk.New("C06", tier)
-	r.Rule = "(a) Reader.feed driven through an io.Reader that delivers OS-like read results ((n>0,nil)* then (0,EOF)) with controlled cuts: streams built from record-length classes {0,1,2,65535,65536,65537,131071,131072,131073,300000,random}, both delimiters, with/without a final unterminated record; cut plans: every split point of short streams (exhaustive), 1-byte reads, cuts right before/on/after each delimiter, full 64 KiB reads, random; records handed to the pusher are compared with split(stream) at push time AND re-read after the last read (aliasing of reused buffers). (b) the fzf binary: stdin written through a pipe with controlled write sizes and pauses, stdout of `fzf -f '' [--read0 --print0] [--no-sort] [--tail N] [--header-lines N]` compared with the reference records. distinct = (length-class multiset, delimiter, cut plan, final-record form | option set) signatures"
-	r.Assumptions = []string{"only read results an *os.File can produce are generated: (n>0, nil) any number of times, then (0, io.EOF)", "process level uses valid UTF-8 records (filter mode re-encodes invalid bytes)", "item ordinals ({n}, index) are observed through GET / in the interactive checks (C08/C09 drivers), not here"}
+	r.Rule = "(a) Reader.feed driven through an io.Reader that delivers OS-like read results ((n>0,nil)* then (0,EOF)) with controlled cuts: streams built from record-length classes {0,1,2,65535,65536,65537,131071,131072,131073,300000,random}, both delimiters, with/without a final unterminated record; cut plans: every split point of short streams (exhaustive), 1-byte reads, cuts right before/on/after each delimiter, full 64 KiB reads, random; records handed to the pusher are compared with split(stream) at push time AND re-read after the last read (aliasing of reused buffers). (b) the fzf binary: stdin written through a pipe with controlled write sizes and pauses, stdout of `fzf -f '' [--read0 --print0] [--no-sort] [--tail N] [--header-lines N]` compared with the reference records. (c) interactive fzf (private tmux server, --listen) reading from a FIFO the harness keeps open: records delivered in bursts of 1..1000 (including exact multiples of the chunk size), optional --tail / --header-lines / identity --with-nth, query changes in between; after each burst, once the hook trace shows a coordinator snapshot containing every delivered record and the search issued for it displayed, GET / must list exactly the expected items (text, ordinal, last N under --tail) - while the stream is open, after it ends, and select-all+accept must print the original records byte for byte. distinct = (length-class multiset, delimiter, cut plan, final-record form | option set) signatures"
+	r.Assumptions = []string{"only read results an *os.File can produce are generated: (n>0, nil) any number of times, then (0, io.EOF)", "process level uses valid UTF-8 records (filter mode re-encodes invalid bytes)", "item ordinals are observed as the index field of GET / in phase (c)", "phase (c) decides on logical time (trace events), a 30 s watchdog yields inconclusive"}
 	if _, err := fzfrun.Bin(); err != nil {
 		r.Inconclusive(err.Error())
 		r.Floor("feed_streams", 1)
@@ -35,9 +35,12 @@ func Main(prop, tier string) int {
 	n := vk.NumWorkers()
 	r.Fanout("c06feed", n, 30*time.Minute)
 	r.Fanout("c06proc", n, 30*time.Minute)
+	r.Fanout("c06live", n, 30*time.Minute)
 	r.Floor("feed_streams", 500)
 	r.Floor("records_checked", 5000)
 	r.Floor("proc_runs", 50)
+	r.Floor("live_comparisons", 100)
+	r.Floor("live_sessions", 10)
 	return r.Finish()
 }
 
